@@ -802,4 +802,12 @@ pub fn run(run: &mut Run) {
     let word = proptest::collection::vec(ch, 0..4).prop_map(|v| v.into_iter().collect::<String>());
     let n = run.budget(200_000, 10_000_000);
     run.prop(&ContextFree, (word.clone(), word), n);
+    // long runs (a counter narrower than usize, a capacity threshold): n copies of a unit, then one more
+    let mut runs: Vec<(String, String)> = vec![];
+    for unit in ["a", "é", "ш", "美", "ě", "한", "éш", "a美", "\u{83}"] {
+        for n in [255usize, 256, 257, 65_535, 65_536, 65_537] {
+            runs.push((unit.repeat(n), unit.to_string()));
+        }
+    }
+    run.list(&ContextFree, "round-trip-is-context-free", runs);
 }
